@@ -24,6 +24,24 @@ LogTypes == {"bal", "stor", "ev", "sui", "code"}
 ZeroStor == [s \in Slots |-> 0]
 CallKinds == {"call", "callcode", "delegatecall", "staticcall"}
 
+\* ------------------------------------------------------------------ code shapes (frame-local determinism)
+(* The frames under one transaction-level call run DIFFERENT code: the contracts of the parent block, the init code of
+   every creation, the code a creation deposited.  What a frame's code does at a JUMP is a function of THAT code alone:
+   the destination is accepted iff it is a JUMPDEST instruction of the code the frame runs - not PUSH data, not behind
+   its end - whatever other code was analysed before under the same root (other init codes, callers, callees).
+   A code SHAPE abstracts where the codes of the universe differ for a jump: which of NSlots marked offsets holds a
+   0x5b byte as PUSH data (a JUMPDEST instruction in every other shape), and whether the code is LONG (it goes on far
+   behind the end of the short shapes and has a JUMPDEST there).  Destination classes: "next" (a JUMPDEST of every
+   shape), "s<i>" (the marked offset i), "far" (the JUMPDEST of the long shapes = behind the end of the short ones). *)
+NSlots == 3
+Shapes == 0..(2 * NSlots - 1)
+SlotOf(sh) == sh % NSlots
+Long(sh) == sh >= NSlots
+SlotDest(i) == "s" \o ToString(i)
+JumpDestsAll == {"next", "far"} \cup {SlotDest(i) : i \in 0..(NSlots - 1)}
+\* the destination is a JUMPDEST instruction of code of this shape
+JumpValid(sh, d) == CASE d = "next" -> TRUE [] d = "far" -> Long(sh) [] OTHER -> d # SlotDest(SlotOf(sh))
+
 \* ------------------------------------------------------------------ the world and its change journal
 \* bal: [Creators -> Nat] (or over all of Addrs: a created address may hold funds already - then a creation collides);
 \* stor: [Contracts -> [Slots -> Nat]] = the storage committed in the parent block
